@@ -32,6 +32,9 @@ type witness struct {
 	Format      string        `json:"format"`
 	Params      codecs.Params `json:"params"`
 	Max         int           `json:"max_payload"`
+	// DefaultMax: the encoder is left at its default limit (PayloadMaxSize unset); Max holds the
+	// documented default the packets are judged against
+	DefaultMax bool `json:"default_max,omitempty"`
 	Frames      [][]int       `json:"frames"` // unit sizes of each Encode call
 	SeqStart    uint16        `json:"seq_start"`
 	SSRC        uint32        `json:"ssrc"`
@@ -158,6 +161,22 @@ func (g *guarded) check() string {
 	return ""
 }
 
+// confMax is the PayloadMaxSize the encoder is configured with (0 = left at its default).
+func (w *witness) confMax() int {
+	if w.DefaultMax {
+		return 0
+	}
+	return w.Max
+}
+
+// defaultLimit is the documented default payload limit of a format's encoder.
+func defaultLimit(name string) int {
+	if name == "rtpmpegts" {
+		return 1316 // 7 x 188
+	}
+	return 1450
+}
+
 type failure struct {
 	key, what string
 	w         witness
@@ -206,7 +225,7 @@ func tryCase(f *codecs.Format, w *witness, st *stats) (res *failure) {
 			res.w.Stack = stk
 		}
 	}()
-	enc, err := f.NewEncoder(p, codecs.EncConf{PayloadMaxSize: w.Max, SSRC: w.SSRC, InitialSequenceNumber: w.SeqStart, PayloadType: w.PT})
+	enc, err := f.NewEncoder(p, codecs.EncConf{PayloadMaxSize: w.confMax(), SSRC: w.SSRC, InitialSequenceNumber: w.SeqStart, PayloadType: w.PT})
 	if err != nil {
 		fail("encoder-init-error", err.Error())
 		return
@@ -321,7 +340,7 @@ func tryCase(f *codecs.Format, w *witness, st *stats) (res *failure) {
 // packetCounts encodes the series with a throw-away encoder and returns the packets per call.
 func packetCounts(f *codecs.Format, w *witness) (out []int) {
 	defer func() { _ = recover() }()
-	enc, err := f.NewEncoder(w.Params, codecs.EncConf{PayloadMaxSize: w.Max, SSRC: 1, InitialSequenceNumber: 0, PayloadType: 96})
+	enc, err := f.NewEncoder(w.Params, codecs.EncConf{PayloadMaxSize: w.confMax(), SSRC: 1, InitialSequenceNumber: 0, PayloadType: 96})
 	if err != nil {
 		return nil
 	}
@@ -363,6 +382,7 @@ type job struct {
 	f *codecs.Format
 	p codecs.Params
 	m int
+	def bool // encoder left at its default limit (m = the documented default)
 }
 
 func main() {
@@ -388,7 +408,11 @@ func main() {
 	for _, f := range codecs.All() {
 		for _, p := range f.Params {
 			for _, m := range f.Limits(p) {
-				jobs = append(jobs, job{f, p, m})
+				jobs = append(jobs, job{f, p, m, false})
+			}
+			// the same sweep with the encoder left at its default limit
+			if d := defaultLimit(f.Name); d >= f.MinLimit(p) {
+				jobs = append(jobs, job{f, p, d, true})
 			}
 		}
 	}
@@ -403,7 +427,7 @@ func main() {
 		defer st.flush(f.Name+"/"+p.Label, m)
 		pr := run.Rand("series/"+f.Name+"/"+p.Label, m)
 		n := 0
-		w := witness{Format: f.Name, Params: p, Max: m}
+		w := witness{Format: f.Name, Params: p, Max: m, DefaultMax: j.def}
 		want := 1
 		flushSeries := func() {
 			if len(w.Frames) == 0 {
@@ -483,6 +507,9 @@ func main() {
 				m = f.MinLimit(p) + r.Intn(2001-min(f.MinLimit(p), 2000))
 			}
 			w := witness{Format: f.Name, Params: p, Max: m, ContentSeed: r.Uint64(), SSRC: r.Uint32(), PT: uint8(r.Intn(128))}
+			if d := defaultLimit(f.Name); r.Intn(10) == 0 && d >= f.MinLimit(p) {
+				w.Max, w.DefaultMax = d, true
+			}
 			for k := 1 + r.Intn(8); k > 0; k-- {
 				w.Frames = append(w.Frames, f.SampleSizes(r, p, m))
 			}
@@ -540,7 +567,7 @@ func main() {
 		"(their RTP profiles give the marker another meaning: talkspurt start / discontinuity), so 'the packet that completes a frame' has no marker to carry there")
 	run.Assume("valid frames as in C03 (grammars in evidence C03.coverage.grammars)")
 	run.Finish(evals.Load(),
-		"systematic: per format x parameter set x payload limit the C03 size sweep plus units of limit-2..limit+2, 2 and 3 limits, alone and next to minimal units, "+
+		"systematic: per format x parameter set x payload limit (explicit limits, and the encoder left at its default limit) the C03 size sweep plus units of limit-2..limit+2, 2 and 3 limits, alone and next to minimal units, "+
 			"chained into series of 1..8 Encode calls; initial sequence numbers 0, 1, 65534, 65535, PRNG, near the wrap and computed so that the wrap falls inside "+
 			"the call with most packets; SSRC 0, 1, 2^32-1, PRNG; several payload types; sampled: PRNG series. evaluations = Encode calls checked. "+
 			"distinct_nontrivial = distinct (format, params, limit, units per call, packets per call, class) shapes with at least one aggregated or fragmented "+
